@@ -533,7 +533,7 @@ func init() {
 			if tier == "thorough" {
 				return 1200
 			}
-			return 120
+			return 300
 		},
 		ChunkSize:   6,
 		Rule:        "three monitors by case number. (codec) through the read-only exports: packets of 0-64 bytes (all sizes, several per run) and larger ones up to multi-buffer, split into 1-3 buffers, x sequence numbers {0,1,2,255,256,2^32-1,2^32,2^32+1,2^63,2^64-1}: encoded bytes equal an independent encoder of the documented layout, exact round trip, EVERY byte position x ALL 255 other values must be rejected (exhaustive for records <= 76 bytes, strided above), every truncation below 12 bytes rejected; longer truncations and 2-4 byte damage are measured only. (layout) every raw value handed to Persistence.Save during a concurrent publish/receive episode with connection losses (half of the episodes on a store whose Load hands out the stored slice itself: the stored bytes must stay what was saved) (2-6 goroutines on both levels, scheduling noise at the entry of Save, race detector on) is checked against the independent encoder, its packet part against the wire, sequence numbers unique. (damage) a real store holding a client identifier, PUBLISH, PUBREL and inbound marker record gets one byte altered or a truncation below 12 bytes, then AdoptSession and a first connection against the reference broker: the damaged bytes never appear in CONNECT or as a packet, and the damage is reported (warning, fatal, or ReadSlices error). Distinct by (part, size, sequence number, record kind, damage kind).",
